@@ -102,7 +102,7 @@ pub fn check_pos(ctx: &mut Ctx, mp: &MPos, b: &Board) {
 }
 
 pub fn run(ctx: &mut Ctx) {
-    let n = ctx.budget(120_000, 5_000_000);
+    let n = ctx.budget(2_000_000, 25_000_000);
     let mut src = Sources::standard(n);
     src.mirror_every = 0;
     src.three_man = if ctx.tier == crate::ctx::Tier::Thorough && ctx.config != "miri" { u64::MAX } else { n / 5 };
